@@ -57,7 +57,8 @@ Qed.
 Lemma parse_timestamp_no_leak ms w buf pos : In w widths -> no_leak (parse_timestamp ms w buf pos).
 Proof.
   intros Hw. unfold parse_timestamp. apply no_leak_bind; [apply parse_numeric_no_leak'; exact Hw|].
-  intros [v n] _. destruct (v =? 2 ^ (8 * w) - 1); [apply no_leak_ok|]. destruct ms; apply no_leak_ok.
+  intros [v n] _. destruct (v =? 2 ^ (8 * w) - 1); [apply no_leak_ok|]. cbv zeta.
+  destruct ms; match goal with |- no_leak (if ?c then _ else _) => destruct c end; try apply no_leak_ok; intros e; discriminate.
 Qed.
 
 Lemma parse_enum_no_leak tbl w buf : In w widths -> no_leak (parse_enum tbl w buf).
